@@ -1,1 +1,31 @@
-From SF Require Import Base.Prelude Properties.C03.
+(* Pinned statements of C03: re-checked on every run. *)
+From SF Require Import Base.Prelude Gen.Generated Unsized.Types Unsized.Parse Unsized.Machine Unsized.Ops Unsized.Proofs.EncodeParse Unsized.Proofs.Mem Unsized.Proofs.Notify Unsized.Proofs.Flat Properties.C03.
+
+Check (C03_notify_stays_in_allocation :
+  forall t p src c m p' m', notify t p src c m = Ok (p', m') -> zlen m' = zlen m).
+Check (C03_add_bytes_stays_in_allocation :
+  forall t s top src start amount s' top',
+    add_bytes t s top src start amount = Ok (s', top') -> m_cap s' = m_cap s).
+Check (C03_remove_bytes_stays_in_allocation :
+  forall t s top src start end_ s' top',
+    remove_bytes t s top src start end_ = Ok (s', top') -> m_cap s' = m_cap s).
+Check (C03_realloc_limit :
+  forall tsA tsB vsA vsB c lw items, length tsA = length vsA -> forall s top idx new,
+    Rep (tsA ++ TList c lw :: tsB) (vsA ++ VList items :: vsB) s top ->
+    0 <= idx <= zlen items -> zlen items + zlen new < 256 ^ Z.of_nat lw -> new <> [] ->
+    (m_refuse s = 1 \/ m_cap s < m_len s + Z.of_nat (fsize c) * zlen new) ->
+    list_insert (TStruct (tsA ++ TList c lw :: tsB)) s top [PF (length tsA)] idx new = Err E_REALLOC).
+Check (C03_flat_pointer_assertions_hold :
+  forall ts vs s top, Rep ts vs s top -> top_check s top = true).
+Check (C03_check_pointers_in_range :
+  forall p lo hi cursor, lo <= hi -> fst (check_ptrs p lo hi cursor) = true -> Forall (fun a => lo <= a <= hi) (addrs p)).
+Check (C03_swapped_accessor_detected :
+  forall p lo hi cursor a, lo <= hi -> In a (addrs p) -> (a < lo \/ hi < a) -> fst (check_ptrs p lo hi cursor) = false).
+
+Print Assumptions C03_notify_stays_in_allocation.
+Print Assumptions C03_add_bytes_stays_in_allocation.
+Print Assumptions C03_remove_bytes_stays_in_allocation.
+Print Assumptions C03_realloc_limit.
+Print Assumptions C03_flat_pointer_assertions_hold.
+Print Assumptions C03_check_pointers_in_range.
+Print Assumptions C03_swapped_accessor_detected.
